@@ -55,8 +55,11 @@ class Fact:
 
 class Flow:
     def __init__(self, func: ast.FunctionDef, file: str = "", consts: dict | None = None,
-                 self_name: str | None = None, keep_arms: bool = False):
+                 self_name: str | None = None, keep_arms: bool = False, resolver=None, _depth: int = 0, _env: dict | None = None):
         self.keep_arms = keep_arms
+        self.resolver = resolver          # name -> FunctionDef of a small pure helper method of the same class (inlined)
+        self._depth = _depth
+        self._preset = _env
         self.func = func
         self.file = file
         self.env: dict = {}
@@ -81,6 +84,8 @@ class Flow:
             self.env[a.vararg.arg] = ("param", "*" + a.vararg.arg)
         if a.kwarg:
             self.env[a.kwarg.arg] = ("param", "**" + a.kwarg.arg)
+        if self._preset:
+            self.env.update(self._preset)
         self.block(func.body)
 
     # ---- which locals are accumulators --------------------------------
@@ -249,6 +254,12 @@ class Flow:
                 return ("join", obj, args[0])
             if f.attr == "copy" and not args:
                 return ("copy", obj)
+            if obj == ("param", "self") and self.resolver is not None and self._depth < 2 and not kws:
+                callee = self.resolver(f.attr)
+                if callee is not None:
+                    inl = self._inline(callee, args)
+                    if inl is not None:
+                        return inl
             return ("meth", obj, f.attr, args, kws)
         if isinstance(f, ast.Name) and f.id in TRANSPARENT and len(args) == 1 and not kws and f.id not in self.env:
             if f.id == "tqdm" or args[0][0] in ("comp", "list", "acc"):
@@ -256,6 +267,36 @@ class Flow:
         if isinstance(f, ast.Name) and f.id == "tqdm" and args:
             return args[0]
         return ("call", self.ev(f), args, kws)
+
+    def _inline(self, callee, args):
+        """Value returned by a small, loop-free helper method for these argument values (phi over its returns)."""
+        if any(isinstance(n, (ast.For, ast.While, ast.Try, ast.With, ast.Yield)) for n in ast.walk(callee)):
+            return None
+        params = [p.arg for p in callee.args.args]
+        if not params or params[0] != "self" or len(params) - 1 != len(args) or callee.args.vararg or callee.args.kwarg:
+            return None
+        preset = dict(zip(params[1:], args))
+        sub = Flow(callee, self.file, keep_arms=False, resolver=self.resolver, _depth=self._depth + 1, _env=preset)
+        rets = [(f.value, list(f.guards)) for f in sub.facts if f.kind == "return"]
+        if not rets or any(f.kind in ("store", "augstore", "attrstore", "append", "mutate") for f in sub.facts):
+            return None
+
+        def build(rs):
+            if len(rs) == 1 and not rs[0][1]:
+                return rs[0][0]
+            conds = [g[0] for v, gs in rs for g in gs[:1]]
+            if not conds or any(not gs for v, gs in rs):
+                return None
+            c = conds[0]
+            t = [(v, gs[1:]) for v, gs in rs if gs[0] == (c, True)]
+            e = [(v, gs[1:]) for v, gs in rs if gs[0] == (c, False)]
+            if len(t) + len(e) != len(rs) or not t or not e:
+                return None
+            a, b = build(t), build(e)
+            if a is None or b is None:
+                return None
+            return ("phi", c, a, b)
+        return build(rets)
 
     # ---- binding ----------------------------------------------------------
     def bind(self, target, value, node):
